@@ -87,3 +87,34 @@ PROPS["C30"] = dict(
                 "same virtual enter/recur/exit oracle, outer loop cut by the same invariant). The contract fixes the sequence of enter/recur/exit calls "
                 "and the final done/tyme as a function of the hook outcomes, so equal doers give equal runs. Native harness runs both on random forests.",
 )
+
+TCP_EXT = ["EXT socket (contracts/tcp.py Sock): send(b) accepts 0..len(b) bytes or raises OSError(e); recv(k) delivers <= k bytes (b'' = orderly close) or raises; "
+           "TLS sockets raise SSLWantRead/WriteError, SSLEOFError, SSLError(e); a socket error never carries errno 2/3/8 (numeric collision with the SSL_ERROR_* codes); "
+           "close() releases the descriptor; shutdown()/getpeername() may raise on a dead connection",
+           "EXT WireLog.writeTx/writeRx append exactly the bytes they are given (their formatting is not verified)"]
+PROPS["C09"] = dict(
+    contracts=["contracts.tcp"], harness="harness.tcp_native:C09", level="proof", trusted_base=TCP_EXT,
+    assumptions=["'continued servicing delivers all of it' is a liveness claim: its safety core is proved instead (pending bytes on a healthy connection are "
+                 "offered to the kernel in full, and txbs shrinks by exactly the accepted count)"],
+    explanation="For Client, ClientTls, Remoter, RemoterTls: send, receive, tx, serviceSends, serviceReceives, serviceReceiveOnce are interpreted from /repo/src "
+                "against ghost byte streams (wire, rwire): send returns the kernel's count and puts exactly data[:count] on the wire; the class invariant "
+                "sent == wire ++ txbs is preserved by tx and serviceSends on every path incl. exceptional ones; serviceReceives appends exactly the delivered "
+                "bytes (read loop cut by an invariant, any number of reads); wire-log calls get exactly data[:count] / the received bytes. All payloads, counts, "
+                "errnos symbolic.")
+PROPS["C10"] = dict(
+    contracts=["contracts.tcp"], harness="harness.tcp_native:C10", level="other", trusted_base=TCP_EXT,
+    assumptions=["errno values are read from the running errno/ssl modules"],
+    explanation="PROVED per endpoint method (send/receive/serviceSends/serviceReceives/serviceReceiveOnce x 4 classes, RemoterTls.handshake): for a symbolic errno, an "
+                "exception escapes only if the errno is not in the statement's list (and not would-block), and a listed fault returns with cutoff True; TLS EOF likewise; "
+                "handshake faults set aborted and close the socket. Server.service / serviceReceivesAllIx / serviceSendsAllIx / serviceReceivesIx / ServerTls.serviceCxes: "
+                "bounded-symbolic over <= 2 connections (other connections still serviced in the same pass). ClientTls.handshake re-raises by design: known finding.")
+PROPS["C11"] = dict(
+    contracts=["contracts.tcp"], harness="harness.tcp_native:C11", level="other", trusted_base=TCP_EXT,
+    explanation="Ghost open flag per socket. Server.close / ServerTls.close (<= 2 connections, <= 1 handshaking), Server.serviceAxes (replacement by a newer connection "
+                "from the same address), ServerTls.serviceCxes (open sockets stay tracked, closed ones are dropped), RemoterTls/ClientTls.handshake (aborted => closed), "
+                "Client/ClientTls.reopen (earlier socket closed, exactly one new). Bounded in the number of connections, symbolic otherwise.")
+PROPS["C12"] = dict(
+    contracts=["contracts.tcp", "contracts.c08_timers"], harness="harness.tcp_native:C12", level="other", trusted_base=TCP_EXT,
+    explanation="Server.serviceAxes PROVED (bounded in #accepted) to build Remoters whose tymeout and tymer duration equal the server's tymeout; Tymer.restart/expired PROVED "
+                "(C08). The http-level close decision (serviceConnects) is covered by the http contracts when present; 'traffic in every window keeps the connection' "
+                "relies on refresh() being a lossless restart: see DESIGN.md C12 note.")
